@@ -49,6 +49,12 @@ def progress_edges(g, x):
     return x._exp(out), kinds
 
 
+ALLOC_RE = (r'(^|::)fmt::format$|string::String(::<.*>)?::(new|from|with_capacity|push|push_str)$|ToString::to_string$|ToOwned::to_owned$|'
+            r'(vec::)?Vec(::<.*>)?::(with_capacity|push|reserve|reserve_exact|extend|extend_from_slice|insert|resize|from_raw_parts)$|'
+            r'VecDeque(::<.*>)?::(push_back|push_front|with_capacity|reserve)$|boxed::Box(::<.*>)?::new$|Arc(::<.*>)?::new$|Rc(::<.*>)?::new$|'
+            r'alloc::alloc::|alloc::(allocate|deallocate)$|slice::<impl \[T\]>::to_vec$|Clone>::clone$')
+
+
 def _p14(ctx):
     roots = [ctx.fn1(r'^multiqueue::InnerSend::<.*>::try_send$'),
              ctx.fn1(r'^multiqueue::InnerRecv::<.*>::try_recv$'),
@@ -113,6 +119,12 @@ def _p14(ctx):
             notifies = set(x.ext_calls(r'wait::Wait::notify$'))
             ctx.add('P14', 'T-REACH', r, not waits, 'no lock / condvar / sleep / yield / waiter call is reachable' if not waits else
                     '%s can wait inside the call: %s' % (short_fn(r), [x.describe(w) for w in waits][:3]), flavour=fl, sub='nowait')
+            # nothing that enters the process-wide allocator on a non-panicking path (its lock may be held by a thread
+            # that is suspended in the middle of a non-try operation)
+            allocs = [n for n in x.ext_calls(ALLOC_RE)]
+            ctx.add('P14', 'T-REACH', r, not allocs, 'the call never allocates or frees heap memory' if not allocs else
+                    '%s enters the allocator inside the call (%s): a try operation then waits for whoever holds the allocator\'s lock'
+                    % (short_fn(r), [x.describe(a_) for a_ in allocs][:3]), flavour=fl, where=g.where(allocs[0]) if allocs else None, sub='noalloc')
 
 
 def _p15(ctx):
